@@ -22,8 +22,9 @@
     that the MODEL of build has no state and no cross-entry dependence (true by its shape); that the
     CODE has none is what the history / makeConfig classes of the correspondence run exercise. *)
 From Coq Require Import String List NArith ZArith.
+From Coq Require Import Sorted.
 From Fabio Require Import Lib.Outcome Lib.Bytes Model.WtF64 Model.TableCmd Model.RouteText Model.RouteCmd
-                          Proofs.TableCmd Proofs.RouteCmd.
+                          Model.ServiceWatch Proofs.TableCmd Proofs.RouteCmd Proofs.ServiceWatch.
 Import ListNotations.
 Local Open Scope N_scope.
 
@@ -329,3 +330,100 @@ Theorem C14_quote_stable_plain : forall isprint s,
   forallb plain s = true -> quote_stable isprint s = true.
 Proof. exact quote_stable_plain. Qed.
 Print Assumptions C14_quote_stable_plain.
+
+(* ---------------- the loop around makeConfig: ServiceMonitor.Watch (Model/ServiceWatch.v) ----------------
+   "... and never prevents or delays route updates for other services", as a statement about WHEN
+   the text of the current registrations is published.  A trace is what consul holds and answers
+   turn by turn of the loop (one turn = one tick; the 1 s sleep after a failed round is the distance
+   between two turns): its index, whether the health query answers an error, which catalog lookups
+   fail, the catalog entries of the passing instances.  [watch_turn]: the blocking query stays open
+   while consul's index is not beyond the remembered one; a failed health query or a failed lookup of
+   ANY passing service sends nothing (c8f84e8) and leaves the remembered index alone; otherwise the
+   text is sent and the index remembered. *)
+
+(* For EVERY trace (index never going back, makeConfig's result a function of the index when it
+   succeeds), in blocking and in poll mode: at every turn at which consul can be read, the
+   configuration sent last is the configuration of the state consul holds at that turn. *)
+Theorem C14_watch_current_when_readable : forall (T : Type) (content : N -> T) poll (vs : list (view T)) v c,
+  nondecreasing T (vs ++ [v]) -> Forall (faithful T content) (vs ++ [v]) ->
+  v_health_err v = false -> v_config v = Some c ->
+  last_sent T (watch_sent T poll (vs ++ [v])) = Some c.
+Proof. exact watch_current_when_readable. Qed.
+Print Assumptions C14_watch_current_when_readable.
+
+(* The retry form: after any history, any number (>= 1) of failed rounds at some index, then the
+   failure is lifted and consul's index does NOT move: the very next turn publishes the current state. *)
+Theorem C14_watch_retry_needs_no_consul_change : forall (T : Type) (content : N -> T) poll before (failed : view T) n lifted c,
+  v_index lifted = v_index failed ->
+  nondecreasing T (before ++ [failed]) -> Forall (faithful T content) (before ++ [failed]) ->
+  faithful T content lifted ->
+  v_health_err lifted = false -> v_config lifted = Some c ->
+  last_sent T (watch_sent T poll ((before ++ repeat failed (S n)) ++ [lifted])) = Some c.
+Proof. exact watch_retry_needs_no_consul_change. Qed.
+Print Assumptions C14_watch_retry_needs_no_consul_change.
+
+(* What is sent at a turn is what makeConfig made at THAT turn after a successful health query:
+   nothing stale, nothing partial, one text per turn at most. *)
+Theorem C14_watch_sends_only_current : forall (T : Type) poll (vs : list (view T)) last k c,
+  In c (nth k (snd (watch_from T poll last vs)) []) ->
+  exists v, nth_error vs k = Some v /\ v_health_err v = false /\ v_config v = Some c
+            /\ nth k (snd (watch_from T poll last vs)) [] = [c].
+Proof. exact watch_sends_only_current. Qed.
+Print Assumptions C14_watch_sends_only_current.
+
+Theorem C14_watch_failed_turn_keeps_index : forall (T : Type) poll last (v : view T),
+  v_health_err v = true \/ v_config v = None -> watch_turn T poll last v = (last, []).
+Proof. exact watch_failed_turn_keeps_index. Qed.
+Print Assumptions C14_watch_failed_turn_keeps_index.
+
+(* Composed with makeConfig and the table: at every turn at which consul can be read (the health
+   query answers, no lookup of a passing service fails) the text fabio routes by is the text of the
+   registrations consul holds at that turn; NewTable accepts it and the table holds the target of
+   every emitted command of every service and nothing else. *)
+Theorem C14_monitor_current_when_readable : forall pweight canon glob_ok env prefix poll ms m,
+  StronglySorted moment_le (ms ++ [m]) -> content_by_index (ms ++ [m]) ->
+  readable m = true ->
+  let text := monitor_text pweight canon glob_ok env prefix (m_regs m) in
+  last_sent str (monitor_sent pweight canon glob_ok env prefix poll (ms ++ [m])) = Some text
+  /\ exists t, new_table pweight canon glob_ok text = Ok t
+      /\ (forall g c d, In g (m_regs m) -> In c (build pweight canon glob_ok env prefix g) ->
+            parse_line pweight c = Ok (Some d) ->
+            exists url tg, canon (d_dst d) = Some url
+             /\ In (lower (fst (hostpath (d_src d))), snd (hostpath (d_src d)), tg) (flat t)
+             /\ same_target (d_svc d) url (w_clamp (d_w d)) (d_tags d) tg = true)
+      /\ (forall x, In x (flat t) -> exists g c d url, In g (m_regs m) /\ In c (build pweight canon glob_ok env prefix g)
+             /\ parse_line pweight c = Ok (Some d) /\ canon (d_dst d) = Some url /\ x = trip d url).
+Proof. exact monitor_current_when_readable. Qed.
+Print Assumptions C14_monitor_current_when_readable.
+
+(* the phase form the correspondence cases are written in is the same loop, grouped *)
+Theorem C14_monitor_phases_is_loop : forall pweight canon glob_ok env prefix poll phases last,
+  concat (monitor_phases pweight canon glob_ok env prefix poll last phases)
+  = concat (snd (watch_from str poll last
+      (map (view_of pweight canon glob_ok env prefix) (flat_map (fun p : moment * nat => repeat (fst p) (snd p)) phases)))).
+Proof. exact monitor_phases_is_loop. Qed.
+Print Assumptions C14_monitor_phases_is_loop.
+
+(* non-vacuous: 'good' is published at index 5; at index 6 'half' has joined while its catalog
+   lookup fails for two rounds; the lookup recovers, consul's index stays 6, and the next turn
+   publishes both services *)
+Theorem C14_monitor_nonvacuous :
+  StronglySorted moment_le ([ex_m1; ex_m2; ex_m2] ++ [ex_m3])
+  /\ content_by_index ([ex_m1; ex_m2; ex_m2] ++ [ex_m3])
+  /\ readable ex_m2 = false /\ readable ex_m3 = true
+  /\ monitor_sent pweight_dec idcanon anyglob env_dc pfx false ([ex_m1; ex_m2; ex_m2] ++ [ex_m3])
+     = [[ex_text [reg_good]]; []; []; [ex_text [reg_good; reg_half]]]
+  /\ ex_text [reg_good; reg_half] <> ex_text [reg_good]
+  /\ monitor_phases pweight_dec idcanon anyglob env_dc pfx false 0 [(ex_m1, 1%nat); (ex_m2, 2%nat); (ex_m3, 2%nat)]
+     = [[ex_text [reg_good]]; []; [ex_text [reg_good; reg_half]]].
+Proof. exact monitor_nonvacuous. Qed.
+Print Assumptions C14_monitor_nonvacuous.
+
+(* The order matters (this is NOT the code; it is the order of the seeded change C14-M): a loop that
+   remembers the index before makeConfig has succeeded keeps routing by the old state for as long
+   as consul does not change again, on the very trace on which the real order recovers at once. *)
+Theorem C14_watch_index_first_refuted : forall n,
+  last_sent N (snd (watch_from_index_first N false 0 (ex_views_before ++ repeat ex_view_lifted n))) = Some 10
+  /\ last_sent N (watch_sent N false (ex_views_before ++ repeat ex_view_lifted (S n))) = Some 20.
+Proof. exact watch_index_first_refuted. Qed.
+Print Assumptions C14_watch_index_first_refuted.
